@@ -100,6 +100,97 @@ Proof.
   split; [|exact S].
   unfold F. rewrite E, fixed_adder_frac_finest, Fk. reflexivity. Qed.
 
+(* ternary / binary (+-1) kernels on fixed-point inputs (mux multiplier): same statement *)
+Lemma mux_tern_shape w x :
+  (name_has_binary (q_name w) || name_has_ternary (q_name w)) = true ->
+  let o := mux w x mkQuantizedBits in
+  mag_bits o = mag_bits x /\ q_fp o = false /\ q_po2 o = false.
+Proof. intros Hn o. unfold o, mux. rewrite Hn. unfold mag_bits.
+  destruct (q_sgn x) eqn:Sx; destruct (q_sgn w) eqn:Sw; simpl; rewrite ?Sx, ?Sw; simpl; repeat split; lia. Qed.
+
+Theorem tern_preact_fits_no_bias w x kernel_ops ts kxs :
+  (q_mode w = 2 \/ q_mode w = 3) -> q_mode x = 0 ->
+  (name_has_binary (q_name w) || name_has_ternary (q_name w)) = true -> q_sgn w = true ->
+  0 <= mag_bits x -> 1 <= kernel_ops ->
+  all_pairs (fun t kx => (t = -1 \/ t = 0 \/ t = 1) /\ code_ok x kx /\ ~ (t = -1 /\ q_sgn x = true /\ kx = fix_lo x)) ts kxs ->
+  Z.of_nat (length ts) <= kernel_ops ->
+  let acc := layer_acc w x kernel_ops None in
+  frac_bits acc = frac_bits x /\ code_ok acc (dot ts kxs).
+Proof.
+  intros Mw Mx Hn Sw Hx HN HP Hlen acc.
+  set (m := mux w x mkQuantizedBits).
+  destruct (mux_tern_shape w x Hn) as [Mm [Fp Po]]. fold m in Mm, Fp, Po.
+  assert (E : acc = fixed_acc kernel_ops false m).
+  { unfold acc, layer_acc, layer_acc_of, layer_mul, make_multiplier. rewrite Mx.
+    destruct Mw as [Mw|Mw]; rewrite Mw; cbn [mul_table run_impl tmpl snd]; fold m;
+      unfold make_accumulator; rewrite Fp, Po; reflexivity. }
+  assert (L : length ts = length kxs) by (eapply all_pairs_length; exact HP).
+  assert (Pk : Forall (code_ok m) (prods ts kxs)).
+  { eapply all_pairs_prods; [|exact HP]. intros t k [Ht [Hk NC]].
+    apply (mux_closed_w_tern_x_fixed w x mkQuantizedBits k t Hn eq_refl Hx Hk Ht (fun _ => Sw) NC). }
+  assert (Hm : 0 <= mag_bits m) by lia.
+  assert (Hl : Z.of_nat (length (prods ts kxs)) <= kernel_ops + b2z false).
+  { rewrite prods_length by exact L. cbn [b2z]. lia. }
+  destruct (fixed_acc_holds_sum kernel_ops false m (prods ts kxs) HN Hm Pk Hl) as [F C].
+  rewrite E, dot_zsum. split; [|exact C]. rewrite F.
+  assert (C0 : code_ok x 0).
+  { unfold code_ok, fix_lo, fix_hi. pose proof (p2ge1 _ Hx). destruct (q_sgn x); lia. }
+  assert (T0 : (0 = -1 \/ 0 = 0 \/ 0 = 1)) by (right; left; reflexivity).
+  assert (N0 : ~ (0 = -1 /\ q_sgn x = true /\ 0 = fix_lo x)) by (intros [A _]; lia).
+  destruct (mux_closed_w_tern_x_fixed w x mkQuantizedBits 0 0 Hn eq_refl Hx C0 T0 (fun _ => Sw) N0) as [FF _].
+  exact FF.
+Qed.
+
+(* power-of-two kernels on fixed-point inputs (shifter multiplier): a weight is (negative?, exponent) *)
+Definition po2_term (mn : Z) (we : bool * Z) (k : Z) : Z := (if fst we then -1 else 1) * k * 2 ^ (snd we + mn).
+Fixpoint po2_dot (mn : Z) (ws : list (bool * Z)) (kxs : list Z) : Z :=
+  match ws, kxs with we :: r, k :: r' => po2_term mn we k + po2_dot mn r r' | _, _ => 0 end.
+
+Lemma shifter_shape w x : q_mode w = 1 -> 0 <= mag_bits x ->
+  let o := shifter w x mkQuantizedBits in
+  0 <= mag_bits o /\ q_fp o = false /\ q_po2 o = false.
+Proof. intros Mw Hx o. pose proof (get_exp_nonneg w) as [A B].
+  unfold o, shifter. rewrite Mw. change (1 =? 1) with true. cbv iota.
+  destruct (get_exp w) as [mn mx]. cbn [fst snd] in A, B. cbv beta iota zeta.
+  unfold mag_bits, set_fp, set_sgn, set_int, set_bits, mkQuantizedBits in *. cbn [q_bits q_sgn q_fp q_po2 q_int q_mode q_maxv q_name q_use01].
+  destruct (q_sgn x) eqn:Sx; destruct (q_sgn w) eqn:Sw; cbn [negb andb orb b2z] in *; repeat split; lia. Qed.
+
+Theorem po2_preact_fits_no_bias w x kernel_ops (ws : list (bool * Z)) kxs :
+  q_mode w = 1 -> q_mode x = 0 -> 0 <= mag_bits x -> 1 <= kernel_ops ->
+  let mn := fst (get_exp w) in let mx := snd (get_exp w) in
+  length ws = length kxs ->
+  (forall we k, In (we, k) (combine ws kxs) ->
+     - mn <= snd we <= mx /\ code_ok x k /\ (fst we = true -> q_sgn w = true) /\
+     ~ (fst we = true /\ q_sgn x = true /\ k = fix_lo x /\ snd we = mx)) ->
+  Z.of_nat (length ws) <= kernel_ops ->
+  let acc := layer_acc w x kernel_ops None in
+  frac_bits acc = frac_bits x + mn /\ code_ok acc (po2_dot mn ws kxs).
+Proof.
+  intros Mw Mx Hx HN mn mx L HP Hlen acc.
+  set (m := shifter w x mkQuantizedBits).
+  destruct (shifter_shape w x Mw Hx) as [Hm [Fp Po]]. fold m in Hm, Fp, Po.
+  assert (E : acc = fixed_acc kernel_ops false m).
+  { unfold acc, layer_acc, layer_acc_of, layer_mul, make_multiplier. rewrite Mw, Mx.
+    cbn [mul_table run_impl tmpl snd]. fold m. unfold make_accumulator. rewrite Fp, Po. reflexivity. }
+  assert (G : forall ws' kxs', length ws' = length kxs' ->
+              (forall we k, In (we, k) (combine ws' kxs') -> In (we, k) (combine ws kxs)) ->
+              exists ps, length ps = length ws' /\ Forall (code_ok m) ps /\ zsum ps = po2_dot mn ws' kxs').
+  { induction ws' as [|we r IH]; intros [|k r'] L' Sub; cbn in L'; try lia.
+    - exists []. repeat split; constructor.
+    - destruct (IH r') as [ps [Lp [Fo Zs]]]; [lia | intros we' k' I; apply Sub; right; exact I |].
+      destruct (HP we k (Sub we k (or_introl eq_refl))) as [He [Hk [Hs NC]]].
+      destruct (shifter_closed_w_po2 w x mkQuantizedBits k (snd we) (fst we) Mw Hx He Hk Hs NC) as [_ C].
+      exists (po2_term mn we k :: ps). cbn [length zsum fold_right po2_dot]. repeat split; [lia | constructor; [exact C | exact Fo] |].
+      unfold zsum in Zs. rewrite Zs. reflexivity. }
+  destruct (G ws kxs L (fun _ _ I => I)) as [ps [Lp [Fo Zs]]].
+  assert (Hl : Z.of_nat (length ps) <= kernel_ops + b2z false) by (rewrite Lp; cbn [b2z]; lia).
+  destruct (fixed_acc_holds_sum kernel_ops false m ps HN Hm Fo Hl) as [F C].
+  rewrite E, <- Zs. split; [|exact C]. rewrite F.
+  unfold m, shifter. rewrite Mw. change (1 =? 1) with true. cbv iota. unfold mn. destruct (get_exp w) as [mn' mx']. cbv beta iota zeta. cbn [fst].
+  unfold frac_bits, set_fp, set_sgn, set_int, set_bits, mkQuantizedBits. cbn [q_bits q_sgn q_fp q_po2 q_int].
+  destruct (q_sgn x) eqn:Sx; destruct (q_sgn w) eqn:Sw; cbn [negb andb orb b2z]; lia.
+Qed.
+
 (* the excluded corner is real: most-negative x most-negative overflows the reported accumulator *)
 Theorem preact_corner_refuted :
   exists w x kernel_ops kws kxs,
